@@ -3,9 +3,9 @@ CONSTANTS
   N = 3
   MaxDeliver = 3
   MaxCrash = 1
-  Readers = 0
+  Readers = 2
   ReadFill = FALSE
   Forks = FALSE
   Gaps = FALSE
-INVARIANTS InvCache InvHeadLinked InvIndex InvHeadState InvMarks InvExecuted InvWeightMonotone InvCrashHeadWeak
+INVARIANTS InvCache InvHeadLinked InvIndex InvHeadState InvMarks InvExecuted
 CHECK_DEADLOCK FALSE
